@@ -74,14 +74,6 @@ Section C11.
     apply (c_in_number_from CRefChunk (s_rchunks sd) 0 x Hx).
   Qed.
 
-  Lemma c_load_counts now j :
-    s_jar_a (load K now j) = length (s_achunks (load K now j))
-    /\ s_jar_r (load K now j) = length (s_rchunks (load K now j)).
-  Proof.
-    unfold load. destruct (session_too_old now (fst (get_session K CMain j)));
-      cbn [s_jar_a s_jar_r s_achunks s_rchunks]; rewrite ?empty_payloads_length; split; reflexivity.
-  Qed.
-
   Theorem c11_serve st now rq rnd ans :
     env_ok E -> cfg_ok cfg -> i_ready st = true ->
     excluded E cfg (c_logout cfg) = false ->
@@ -94,7 +86,6 @@ Section C11.
     set (sd := carried cfg now rq).
     set (r := mkResp 302 (Some (c_logout_loc rq st sd)) (save_cookies (SessionProofs.cleared sd)) BNone None false [] []).
     assert (Hc : r_cookies r = save_cookies (SessionProofs.cleared sd)) by reflexivity.
-    destruct (c_load_counts now (q_jar rq)) as [Hja Hjr]. fold (carried cfg now rq) in Hja, Hjr. fold sd in Hja, Hjr.
     assert (H3 : all_empty_payloads r = true).
     { unfold all_empty_payloads. apply forallb_forall. intros sc Hsc. rewrite Hc in Hsc.
       rewrite (cleared_all_empty sd sc Hsc). reflexivity. }
@@ -104,10 +95,10 @@ Section C11.
       by (unfold covers; rewrite Hc; apply covers_save_base; tauto).
     assert (H6 : covers r CRef = true)
       by (unfold covers; rewrite Hc; apply covers_save_base; tauto).
-    assert (H7 : covers_chunks r CAccChunk 0 (s_jar_a sd) = true).
+    assert (H7 : covers_chunks r CAccChunk 0 (length (s_achunks sd)) = true).
     { apply c_covers_chunks_intro. intros x Hx. apply (c_covers_save_acc_chunk r _ x Hc).
       cbn [SessionProofs.cleared s_achunks]. rewrite empty_payloads_length. lia. }
-    assert (H8 : covers_chunks r CRefChunk 0 (s_jar_r sd) = true).
+    assert (H8 : covers_chunks r CRefChunk 0 (length (s_rchunks sd)) = true).
     { apply c_covers_chunks_intro. intros x Hx. apply (c_covers_save_ref_chunk r _ x Hc).
       cbn [SessionProofs.cleared s_rchunks]. rewrite empty_payloads_length. lia. }
     rewrite H3, H4, H5, H6, H7, H8. cbn [r r_status r_loc forwarded r_fwd N.eqb Pos.eqb negb andb].
